@@ -102,3 +102,9 @@
 #[derive(Logos)] #[logos(skip(r"//.{1,}"))] enum GreedyCountedSkip { #[token("a")] A }
 #[derive(Logos)] enum GreedyCapturedDot { #[regex("(.)*x")] A }
 #[derive(Logos)] enum GreedyCapturedDotNested { #[regex("a((.))+b")] A }
+
+// look-behind on the text before the token start: a leading start-of-input assertion, however it is spelled
+#[derive(Logos)] enum LeadingCaret { #[regex("^foo")] A, #[token("b")] B }
+#[derive(Logos)] #[logos(skip r"^#![a-z/ ]*\n")] enum LeadingCaretSkip { #[regex("[a-z]+")] W }
+#[derive(Logos)] enum LeadingStartText { #[regex(r"\Afoo")] A, #[token("b")] B }
+#[derive(Logos)] enum GroupedCaret { #[regex("(^foo)")] A, #[token("b")] B }
